@@ -13,7 +13,7 @@ static tp_p g_tp, g_tp2;
 static size_t g_pool, g_pool2;
 static brec_t g_b[MAXB]; static size_t g_nb;
 static volatile uint64_t g_done_total, g_cb_total, g_barrier_cnt, g_caller_done;
-static unsigned g_cb_work_us;
+static unsigned g_cb_work_us, g_caller_last, g_others_expected; static uint32_t g_caller_tid = 0xfffffffe;
 static int g_armed; static __thread int t_inject; static __thread uint64_t t_cur_b;
 static int g_wfault_kind; static uint8_t *g_wfault_pos; static size_t g_wfault_max = 1u << 16;
 static volatile uint64_t g_qwrites, g_winj;
@@ -69,6 +69,10 @@ static void bcast_cb(tpt_p tpt, void *udata) {
 	__atomic_add_fetch(&b->enters, 1, __ATOMIC_RELAXED);
 	TM_LOG(EV_CB_ENTER, (uint16_t)(tpt_get_tp(tpt) == g_tp ? 0 : 1), b->id, tpt_get_num(tpt), 0);
 	if (g_cb_work_us) { r = tm_rand(); if ((r & 3) == 0) spin_us((unsigned)((r >> 8) % (g_cb_work_us + 1))); }
+	if (g_caller_last && tm_tid == g_caller_tid) { /* the caller's own callback finishes last (bounded wait) */
+		uint64_t t0 = tm_now();
+		while (__atomic_load_n(&b->exits, __ATOMIC_RELAXED) < g_others_expected && tm_now() - t0 < 300000000ull) sched_yield();
+	}
 	TM_LOG(EV_CB_EXIT, 0, b->id, tpt_get_num(tpt), 0);
 	__atomic_add_fetch(&b->exits, 1, __ATOMIC_RELAXED);
 	__atomic_add_fetch(&g_cb_total, 1, __ATOMIC_RELAXED);
@@ -113,7 +117,7 @@ static void __attribute__((noinline)) caller_run(caller_t *c) {
 	__atomic_store_n(&g_caller_done, 1, __ATOMIC_RELEASE);
 }
 
-static void caller_cb(tpt_p tpt, void *udata) { caller_t *c = udata; c->self = tpt; caller_run(c); }
+static void caller_cb(tpt_p tpt, void *udata) { caller_t *c = udata; c->self = tpt; g_caller_tid = tm_tid; caller_run(c); }
 
 int main(void) {
 	size_t len; uint8_t *c; vout_t o = {0}; vin_t in;
@@ -125,7 +129,7 @@ int main(void) {
 	in.p = c; in.n = len; in.o = 0; in.bad = 0;
 	seed = vin_u64(&in); pool = vin_u8(&in); pool2 = vin_u8(&in); caller_kind = vin_u8(&in); caller_idx = vin_u8(&in);
 	api = vin_u8(&in); flags = vin_u32(&in); nb = vin_u16(&in); pass_src = vin_u8(&in);
-	fail_mask = vin_u32(&in); skip_first = vin_u8(&in); g_cb_work_us = vin_u16(&in);
+	fail_mask = vin_u32(&in); skip_first = vin_u8(&in); g_cb_work_us = vin_u16(&in); g_caller_last = vin_u8(&in); g_others_expected = vin_u8(&in);
 	tm_perturb_permille = vin_u16(&in); tm_sleep_max_us = vin_u16(&in); tm_point_mask = vin_u64(&in);
 	wkind = vin_u8(&in); nw = vin_u16(&in);
 	g_wfault_pos = calloc(g_wfault_max, 1);
